@@ -404,3 +404,34 @@ def run(ctx):
                             "a marker that carries no sample consumes a channel slot (or a sample does not): from there on the two channels' predictor states are swapped — stereo data does not decode to what was encoded")
         if n_arms == 0:
             ctx.bad(R_adp, "adpcm|shape", ad.where, "decode loop / per-byte decision not recognised", "shape changed")
+
+    # PKWare: the literal mode the compressor emits is one the decoder accepts; the decoder turns the unsupported mode into an error
+    R_pk = ctx.rule("C03.pkware-mode-supported-by-decoder", "pkware::compress emits the binary literal mode and pkware::decompress rejects a mode byte of 1 (ASCII, unimplemented in the exploder) with an error before exploding", floor=2)
+    pkc = fns.get(C + "algorithms::pkware::compress")
+    pkd = fns.get(C + "algorithms::pkware::decompress")
+    if pkc is None or pkd is None:
+        ctx.bad(R_pk, "pkware|missing", "-", "pkware codec not found", "anchor gone")
+    else:
+        ctx.saw_fn(pkc)
+        ctx.saw_fn(pkd)
+        modes = set()
+        for c_ in hirq.calls(pkc.hir["body"]):
+            if (c_.get("fn") or "").endswith("implode_bytes"):
+                for a_ in c_["args"]:
+                    for x in hirq.walk(a_):
+                        if x.get("k") == "path" and "CompressionMode::" in x["res"].get("def", ""):
+                            modes.add(x["res"]["def"].split("::")[-1])
+        guard = False
+        first_explode = min([c_["ln"] for c_ in hirq.walk(pkd.hir["body"]) if c_.get("k") == "mcall" and c_["m"] == "explode_block"] or [10 ** 9])
+        for n in hirq.find(pkd.hir["body"], "if"):
+            cr = hirq.render(n["c"])
+            if re.search(r"\[0\] == 1|== 1\b.*\[0\]", cr) and n["ln"] < first_explode and any(x.get("k") == "ret" and "Err" in hirq.render(x.get("e")) for x in hirq.walk(n["then"])):
+                guard = True
+        if modes and modes <= {"Binary"}:
+            ctx.ok(R_pk, {"compress_mode": sorted(modes)})
+        else:
+            ctx.bad(R_pk, "pkware|mode", pkc.where, "compress emits literal mode %s" % (sorted(modes) or "?"), "the exploder behind decompress() implements binary mode only: the codec's own output panics (unimplemented!) when read back")
+        if guard:
+            ctx.ok(R_pk, {"decoder_rejects_ascii_mode": True})
+        else:
+            ctx.bad(R_pk, "pkware|ascii-guard", pkd.where, "decompress does not reject mode byte 1 before calling the exploder", "an ASCII-mode stream (any hostile block starting with 0x01) reaches unimplemented!() in the dependency: panic instead of an error")
